@@ -27,9 +27,9 @@ func Keccak(data ...[]byte) [32]byte {
 
 type abiVal interface{ isDyn() bool }
 
-type Word [32]byte     // bytes32 / uint256 / address (left padded)
-type WordArr []Word    // uint256[] / address[]
-type DynBytes []byte   // bytes
+type Word [32]byte   // bytes32 / uint256 / address (left padded)
+type WordArr []Word  // uint256[] / address[]
+type DynBytes []byte // bytes
 
 func (Word) isDyn() bool     { return false }
 func (WordArr) isDyn() bool  { return true }
@@ -165,14 +165,14 @@ func BatchHash(b BatchCall, gravityID Word) [32]byte {
 }
 
 type LogicCall struct {
-	TransferAmounts []*big.Int
-	TransferTokens  [][20]byte
-	FeeAmounts      []*big.Int
-	FeeTokens       [][20]byte
-	LogicContract   [20]byte
-	Payload         []byte
-	Timeout         uint64
-	InvalidationID  [32]byte
+	TransferAmounts   []*big.Int
+	TransferTokens    [][20]byte
+	FeeAmounts        []*big.Int
+	FeeTokens         [][20]byte
+	LogicContract     [20]byte
+	Payload           []byte
+	Timeout           uint64
+	InvalidationID    [32]byte
 	InvalidationNonce uint64
 }
 
